@@ -835,6 +835,33 @@ void gen_c17(Plan& p, bool thorough) {
     i.set("op", "import").set("pb", param).set("param", param).set("which", which ? "sk" : "pk").set("surf", (int64_t)r.below(2)).set("n", 100).setu("kseed", r.next() >> 20).set("chk", "c11").set("kpat", "rand");
     p.tasks[0].push_back(i);
   }
+  // capacity boundary (size computations are #if ladders too), corrupted key, forced extreme challenge (the MAX_* buffer
+  // bounds shrink with the enabled instances: the longest signature of each enabled set must still fit), entropy fault
+  static const std::vector<std::string> caps = {"needed-1", "frac990", "needed", "hdr", "needed-64", "max-1"};
+  for (int i = 0; i < 2; i++) {
+    Case c = km;
+    c.set("op", "sign").set("surf", (int64_t)r.below(2)).set("chk", "c06").set("cap", caps[(p.run / 12 * 2 + i) % caps.size()]);
+    p.tasks[0].push_back(c);
+  }
+  {
+    Case c = km;
+    c.set("op", "export").set("which", r.chance(1, 2) ? "sk" : "pk").set("surf", (int64_t)r.below(2)).set("cap", "size-1");
+    p.tasks[0].push_back(c);
+    Case b = km;
+    b.set("kpat", "rand");
+    b.set("op", "signbad").set("surf", (int64_t)r.below(3)).set("cf", std::to_string(8 + r.below(3 * pp.n)));
+    p.tasks[0].push_back(b);
+    Case f = km;
+    f.set("op", "sign").set("surf", (int64_t)r.below(2)).set("chk", "c13").set("cap", "max").set("place", "edge").setu("oseed", r.next() >> 20);
+    if (pp.kkw)
+      f.set("och", "max").set("opar", "cyc");
+    else
+      f.set("och", r.chance(1, 2) ? "all1" : "nonzero");
+    p.tasks[0].push_back(f);
+    Case g;
+    g.set("op", "keygen").set("param", param).set("surf", (int64_t)r.below(3)).set("rs", "rand").setu("rseed", r.next() >> 20).set("chk", "c07").set("f.rng_err", "EAGAIN").set("f.rng_req", (int64_t)r.below(2));
+    p.tasks[0].push_back(g);
+  }
   Case n1 = km;
   n1.set("op", "nist").set("sub", "sign");
   p.tasks[0].push_back(n1);
@@ -898,7 +925,7 @@ uint64_t default_runs(const std::string& prop, const std::string& tier) {
   };
   static const R tab[] = {{"C01", 480, 4800},  {"C02", 600, 2400 + 384}, {"C03", 288, 2400}, {"C04", 120, 960},  {"C05", 480, 4800}, {"C06", 480, 2880},
                           {"C07", 144, 288},   {"C09", 480, 2400},       {"C10", 480, 1920},  {"C11", 96, 192},   {"C12", 144, 12 * 36},  {"C13", 721, 3601},
-                          {"C14", 1440, 600 + 4 * 507}, {"C15", 480, 7200},  {"C16", 288, 1920},  {"C17", 13, 37}, {"C18", 180, 60 * 16 + 240}};
+                          {"C14", 1440, 600 + 4 * 507}, {"C15", 480, 7200},  {"C16", 288, 1920},  {"C17", 25, 49}, {"C18", 180, 60 * 16 + 240}};
   for (auto& r : tab)
     if (prop == r.p)
       return th ? r.t : r.q;
